@@ -26,14 +26,20 @@ COMPILED_OK = [e for e in EXPRS if "fields(" not in e]
 class AbsSelector:
     """A selector about which nothing is known: match() answers a fresh boolean per call (and keeps a log of what it was asked)."""
 
-    def __init__(self, it):
-        self.it, self.calls, self.answers = it, [], []
+    FALSY, TRUTHY = (0, "", None, [], 0.0), (1, "x", ["a"], 2.5, -1)
+
+    def __init__(self, it, values=False):
+        self.it, self.calls, self.answers, self.values = it, [], [], values
 
     def match(self, rec):
         self.calls.append(rec)
         b = z3.Bool(f"match!{len(self.calls)}")
         d = self.it.branch(b)
         self.answers.append(d)
+        if self.values:
+            # what a selector hands back is the VALUE of its expression (a bare field, a bit test, an and / or of operands): only its truth counts
+            pool = self.TRUTHY if d else self.FALSY
+            return pool[(len(self.calls) - 1) % len(pool)]
         return d
 
 
@@ -56,7 +62,7 @@ def build(tier="quick", seed=0):
     def src_stream(selector):
         A = it.call(RD, ["c10/a", [("varint", "n"), ("string", "s")]], {})
         B = it.call(RD, ["c10/b", [("string", "s")]], {})
-        recs = [it.call(A, [], {"n": 1, "s": "a"}), it.call(B, [], {"s": "b"}), it.call(A, [], {"n": 3, "s": "c"})]
+        recs = [it.call(A, [], {"n": 1, "s": "a"}), it.call(B, [], {"s": "b"}), it.call(A, [], {"n": 3, "s": "a  b"})]
         segs = []
         fp = AbsFile(it, mode="wb")
         w = it.call(st.g["RecordStreamWriter"], [fp], {})
@@ -68,7 +74,7 @@ def build(tier="quick", seed=0):
         A = it.call(RD, ["c10/a", [("varint", "n"), ("string", "s")]], {})
         fp = AbsFile(it, mode="w")
         w = it.call(jf.g["JsonfileWriter"], [fp], {})
-        for r in [it.call(A, [], {"n": 1, "s": "a"}), it.call(A, [], {"n": 2, "s": "b"})]:
+        for r in [it.call(A, [], {"n": 1, "s": "a"}), it.call(A, [], {"n": 2, "s": "a  b"})]:
             it.call(it.getattr_(w, "write"), [r], {})
         lines = fp.content() + ['{"plain": 1, "other": "x"}\n']  # a plain JSON line: the reader's fallback branch
         return it.call(jf.g["JsonfileReader"], [AbsFile(it, lines, mode="r")], {"selector": selector}), 3
@@ -76,20 +82,20 @@ def build(tier="quick", seed=0):
     def src_avro(selector):
         A = it.call(RD, ["c10/a", [("varint", "n"), ("string", "s")]], {})
         schema = it.call(av.g["descriptor_to_schema"], [A], {})
-        items = [{"n": i, "s": "v%d" % i, "_source": None, "_classification": None, "_generated": None, "_version": 1} for i in range(3)]
+        items = [{"n": i, "s": "a  b" if i == 2 else "v%d" % i, "_source": None, "_classification": None, "_generated": None, "_version": 1} for i in range(3)]
         fp = AbsFile(it, [], mode="rb")
         fp.segs = [(AvroHeader(schema, "null"), 64), (AvroBlock(items[:2]), 18), (AvroBlock(items[2:]), 17)]
         return it.call(av.g["AvroReader"], [fp], {"selector": selector}), 3
 
     def src_csv(selector):
         fp = AbsFile(it, [], mode="r")
-        fp.csv_rows = [["n", "s"], ["1", "a"], ["2", "b"], ["3", "c"]]
+        fp.csv_rows = [["n", "s"], ["1", "a"], ["2", "b"], ["3", "a  b"]]
         it.vfs = {"/abs/c10.csv": fp}
         return it.call(cs.g["CsvfileReader"], ["/abs/c10.csv"], {"selector": selector}), 3
 
     def src_sqlite(selector):
         db = SqlDb()
-        db.tables = {"c10/a": {"cols": [("n", "BIGINT"), ("s", "TEXT"), ("_source", "TEXT"), ("_classification", "TEXT"), ("_generated", "TIMESTAMPTZ"), ("_version", "BIGINT")], "rows": [(1, "a", None, None, None, 1), (2, "b", None, None, None, 1)]},
+        db.tables = {"c10/a": {"cols": [("n", "BIGINT"), ("s", "TEXT"), ("_source", "TEXT"), ("_classification", "TEXT"), ("_generated", "TIMESTAMPTZ"), ("_version", "BIGINT")], "rows": [(1, "a", None, None, None, 1), (2, "a  b", None, None, None, 1)]},
                      "c10/b": {"cols": [("s", "TEXT")], "rows": [("z",)]}}
         it.vfs = {"/abs/c10.db": db}
         return it.call(sq.g["SqliteReader"], ["/abs/c10.db"], {"selector": selector, "batch_size": 2}), 3
@@ -98,7 +104,7 @@ def build(tier="quick", seed=0):
 
     def th_loop(kind, with_selector):
         def th():
-            s = AbsSelector(it) if with_selector else None
+            s = AbsSelector(it, values=(with_selector == "values")) if with_selector else None
             rd, n = SOURCES[kind](s)
             out = list(it.iterate(rd))
             if s is None:
@@ -111,14 +117,15 @@ def build(tier="quick", seed=0):
         return th
 
     for kind in SOURCES:
-        for with_selector in (True, False):
-            name = f"C10.loop[{kind}, {'abstract selector' if with_selector else 'no selector'}]"
+        for with_selector in (True, "values", False):
+            name = f"C10.loop[{kind}, {'abstract selector answering with values that are not booleans' if with_selector == 'values' else 'abstract selector' if with_selector else 'no selector'}]"
             pack.add(Obligation(name, lambda tier, name=name, kind=kind, ws=with_selector: prove_paths(name, th_loop(kind, ws), lambda p: (p.value[0] is True, p.value[2]), lambda m_, p: {}),
                                 replay=lambda w, kind=kind: {"call": "c10_reader", "args": {"kind": kind}}, functions=FU, mode="abstract selector (arbitrary boolean per record, all 2^3 answer vectors), source of three items"))
     pack.case_analyses.append("reader loops: sources of three items (two plus one fallback line for JSON; two tables for SQLite, batch size 2); the loop bodies do not depend on the position, the selector is arbitrary")
 
     # ------------------------------------------------------------------ real selectors: reading with the selector == reading everything and testing each record with a fresh selector
-    REAL = ["not (r.n == 1)", "r.n == 1 or name(r) == 'c10/b'", "r.s == 'a'", "r.level == 'x' or not has_field(r, 'level')", "r.nosuch != 1"]
+    REAL = ["not (r.n == 1)", "r.n == 1 or name(r) == 'c10/b'", "r.s == 'a'", "r.level == 'x' or not has_field(r, 'level')", "r.nosuch != 1",
+            "r.s", "lower(r.s)", "r.s == 'a  b'", "r.s not in ['a b', 'a\tb']"]  # (a selector given as text is the expression as it is written: blanks inside a literal belong to the value)
 
     def th_equiv(kind, expr, form):
         def th():
